@@ -202,11 +202,12 @@ func (i *Inserter) ingestTableFromBlocks(columns []string, pk []uint32) ([]byte,
 	if err != nil {
 		return nil, err
 	}
-	sum, err := objects.SaveTable(i.db, buf.Bytes())
-	if err != nil {
-		return nil, err
-	}
-	i.logger.Info("saved table", "sum", sum)
+	// table object is saved last so that its presence means the table, its
+	// index and profile are all there
+	tblBytes := make([]byte, buf.Len())
+	copy(tblBytes, buf.Bytes())
+	arr := meow.Checksum(0, tblBytes)
+	sum := arr[:]
 
 	// write and save table index
 	buf.Reset()
@@ -234,6 +235,11 @@ func (i *Inserter) ingestTableFromBlocks(columns []string, pk []uint32) ([]byte,
 		}
 	}
 
+	sum, err = objects.SaveTable(i.db, tblBytes)
+	if err != nil {
+		return nil, err
+	}
+	i.logger.Info("saved table", "sum", sum)
 	return sum, nil
 }
 
